@@ -275,6 +275,14 @@ impl MissingFieldLocationGuard {
         Self { prev }
     }
 
+    /// Park the fallback location of an enclosing document for the duration of a nested parse
+    /// (a parse started inside a user `Deserialize` impl): the nested document starts without a
+    /// fallback, the outer one gets its location back when the guard is dropped.
+    pub(crate) fn parked() -> Self {
+        let prev = MISSING_FIELD_FALLBACK.with(|c| c.replace(None));
+        Self { prev }
+    }
+
     /// Update the fallback location in place, reusing the existing guard's restore point.
     pub(crate) fn replace_location(&mut self, location: Location) {
         MISSING_FIELD_FALLBACK.with(|c| c.set(Some(location)));
